@@ -198,6 +198,9 @@ class LoopMixin:
             run.assume(self.eval_inv(inv, frame, {"_k": VInt(k), "_n": VInt(n)}))
         if run.choose([("iterate", k < n), ("exit", k == n)], header) == 0:
             self.assign_target(node.target, elem(k), frame)
+            for old_n, new_n in getattr(self, "loop_alias", {}).get(id(node), {}).items():
+                if new_n in frame.locals:
+                    frame.locals[old_n] = frame.locals[new_n]       # the contract still calls the renamed loop variable by its old name
             self.fire("loop_iter", header, k)
             for fact in spec.get("assume_at_iter", []):
                 # instances of trusted structural facts (e.g. pairwise distinct dict keys), stated in the contract
